@@ -102,7 +102,7 @@ def mon_c02(sc, prof, pairs):
             out.append(Failure(sc, prof, i["step"], f"position holds fields of different elements: {i['regs']}", f"C02:{op}:aligned", {"I": i["raw"]}))
         elif user_wrote and not cb_panicked and [rows_of(c) for c in regs] != [rows_of(c) for c in parse_regs(s["regs"])]:
             out.append(Failure(sc, prof, i["step"], f"rows differ from the mirror's rows: {i['regs']} vs {s['regs']}", f"C02:{op}:aligned", {"I": i["raw"], "S": s["raw"]}))
-        if i["status"] == "panic" and "panic=" not in line and op != "unwind_drop" and prev is not None and not sc.meta_clonefuse(int(i["step"])):
+        if i["status"] == "panic" and "panic=" not in line and op not in ("unwind_drop", "extend_boom") and prev is not None and not sc.meta_clonefuse(int(i["step"])):
             if i["regs"] != prev:
                 out.append(Failure(sc, prof, i["step"], f"argument panic changed the container: before={prev} after={i['regs']}", f"C02:{op}:atomic", {"I": i["raw"]}))
         prev = i["regs"]
